@@ -148,6 +148,11 @@ func runXdr(seed int64, n int, out string) {
 			}
 		}
 	}
+	k := n / 8
+	if k < 2 {
+		k = 2
+	}
+	runXdrWrappers(w, rng, k)
 }
 
 func init() {
